@@ -66,7 +66,14 @@ func buildView(c c11Case, dir string) (fsutil.FS, string, error) {
 			return nil, "", err
 		}
 	default:
-		if base, err = fsutil.NewFS(dir); err != nil {
+		// every other on-disk view reaches its root through a symlink
+		arg := dir
+		if evid.H(c.String())%2 == 1 {
+			if lerr := os.Symlink(filepath.Base(dir), dir+".lnk"); lerr == nil || os.IsExist(lerr) {
+				arg = dir + ".lnk"
+			}
+		}
+		if base, err = fsutil.NewFS(arg); err != nil {
 			return nil, "", err
 		}
 	}
